@@ -53,6 +53,13 @@ def _worker(widx, work, init, taskq, resq, cur, mem_limit, parent_pid=None):
         task = taskq.get()
         if task is None:
             return
+        lose = os.environ.get("VMC_POOL_SELFTEST_LOSE_ONE")   # selftest only: the first task anybody takes vanishes
+        if lose:
+            try:
+                os.close(os.open(lose, os.O_CREAT | os.O_EXCL | os.O_WRONLY))
+                continue
+            except FileExistsError:
+                pass
         chunk_id, payload, skip = task
         base = widx * 3
         cur[base] = chunk_id
@@ -138,8 +145,7 @@ def run_chunks(work, chunks, nproc=None, case_timeout=20.0, mem_limit=6 << 30,
     run_idx = len(RUNS)
     RUNS.append((work, chunks, init))
     nproc = max(1, min(nproc or (os.cpu_count() or 4), len(chunks)))
-    taskq = CTX.Queue()
-    resq = CTX.Queue()
+    q = {"task": CTX.Queue(), "res": CTX.Queue()}
     cur = CTX.Array("d", nproc * 3, lock=False)
     for i in range(nproc):
         cur[i * 3] = -1
@@ -149,7 +155,7 @@ def run_chunks(work, chunks, nproc=None, case_timeout=20.0, mem_limit=6 << 30,
     def spawn(widx):
         cur[widx * 3] = -1
         p = CTX.Process(target=_worker,
-                        args=(widx, work, init, taskq, resq, cur, mem_limit, os.getpid()),
+                        args=(widx, work, init, q["task"], q["res"], cur, mem_limit, os.getpid()),
                         daemon=True)
         p.start()
         procs[widx] = p
@@ -157,14 +163,42 @@ def run_chunks(work, chunks, nproc=None, case_timeout=20.0, mem_limit=6 << 30,
     for w in range(nproc):
         spawn(w)
     for cid, payload in enumerate(chunks):
-        taskq.put((cid, payload, frozenset()))
+        q["task"].put((cid, payload, frozenset()))
     pending = set(range(len(chunks)))
+    last_result = time.monotonic()
+    stall = float(os.environ.get("VMC_POOL_STALL") or max(3 * case_timeout, 60.0))
+
+    def rebuild():
+        """A worker that the watchdog kills in the instant it has finished its chunk can die holding the lock of a shared
+        queue; everybody then waits for that lock for ever.  Seen as: chunks pending, every worker idle, no result for a
+        long time.  Way out: new queues, new workers, the pending chunks queued again (a chunk whose result was lost with
+        the old queue is run again)."""
+        for p in list(procs.values()):
+            try:
+                os.kill(p.pid, signal.SIGKILL)
+            except (ProcessLookupError, TypeError):
+                pass
+            p.join(5)
+        procs.clear()
+        for old in (q["task"], q["res"]):
+            old.cancel_join_thread()
+        q["task"], q["res"] = CTX.Queue(), CTX.Queue()
+        for w in range(nproc):
+            spawn(w)
+        for cid in sorted(pending):
+            q["task"].put((cid, chunks[cid], frozenset(skips[cid])))
+
     try:
         while pending:
             try:
-                kind, widx, cid, res = resq.get(timeout=0.25)
+                kind, widx, cid, res = q["res"].get(timeout=0.25)
+                last_result = time.monotonic()
             except queue_mod.Empty:
                 kind = None
+                if time.monotonic() - last_result > stall and all(cur[w * 3] < 0 for w in range(nproc)):
+                    rebuild()
+                    last_result = time.monotonic()
+                    continue
             if kind == "ok":
                 if cid in pending:
                     pending.discard(cid)
@@ -179,6 +213,8 @@ def run_chunks(work, chunks, nproc=None, case_timeout=20.0, mem_limit=6 << 30,
                 base = widx * 3
                 cid = int(cur[base])
                 if cid >= 0 and now - cur[base + 2] > case_timeout:
+                    if int(cur[base]) != cid or time.monotonic() - cur[base + 2] <= case_timeout:
+                        continue     # it has moved on in the meantime
                     idx = int(cur[base + 1])
                     try:
                         os.kill(p.pid, signal.SIGKILL)
@@ -195,7 +231,7 @@ def run_chunks(work, chunks, nproc=None, case_timeout=20.0, mem_limit=6 << 30,
                             yield cid, _hang_acc(chunks[cid], idx, case_timeout), sorted(skips[cid])
                         else:
                             skips[cid].add(idx)
-                            taskq.put((cid, chunks[cid], frozenset(skips[cid])))
+                            q["task"].put((cid, chunks[cid], frozenset(skips[cid])))
                     spawn(widx)
                 elif not p.is_alive() and cid >= 0 and cid in pending:
                     # died (e.g. OOM kill / segfault): treat current case as hung
@@ -207,12 +243,12 @@ def run_chunks(work, chunks, nproc=None, case_timeout=20.0, mem_limit=6 << 30,
                         yield cid, _hang_acc(chunks[cid], idx, case_timeout), sorted(skips[cid])
                     else:
                         skips[cid].add(idx)
-                        taskq.put((cid, chunks[cid], frozenset(skips[cid])))
+                        q["task"].put((cid, chunks[cid], frozenset(skips[cid])))
                     spawn(widx)
     finally:
         for _ in procs:
             try:
-                taskq.put(None)
+                q["task"].put(None)
             except Exception:
                 pass
         deadline = time.monotonic() + 2
@@ -223,5 +259,5 @@ def run_chunks(work, chunks, nproc=None, case_timeout=20.0, mem_limit=6 << 30,
                     os.kill(p.pid, signal.SIGKILL)
                 except ProcessLookupError:
                     pass
-        taskq.cancel_join_thread()
-        resq.cancel_join_thread()
+        q["task"].cancel_join_thread()
+        q["res"].cancel_join_thread()
